@@ -253,7 +253,8 @@ def cbmc_cmd(ob, gb, extra=(), backend=None):
     else: cmd += ['--malloc-may-fail', '--malloc-fail-null']
     if ob.object_bits: cmd += ['--object-bits', str(ob.object_bits)]
     cmd += BACKENDS[backend or (ob.backend if isinstance(ob.backend, str) else ob.backend[0])]
-    cmd += list(ob.cbmc_extra) + list(extra)
+    # the trace run must not slice: a sliced formula may drop the declaration of the harness input
+    cmd += [x for x in ob.cbmc_extra if not ('--trace' in extra and x == '--slice-formula')] + list(extra)
     return cmd
 
 def shim_env(ob, backend=None):
